@@ -168,3 +168,25 @@ PROPS["C32"] = {
     "text": "Seeded sampling of boundary-centred ages, delays and iteration histories with an operation-log oracle.",
     "note": "Liveness (expired data is eventually removed) is measured by probes only; it is not part of the property.",
 }
+
+PROPS["C30"] = {
+    "world": "BL",
+    "level": "exploration",
+    "technique": "deterministic simulation: plan monitors on real compactor lives plus plan/apply histories through the real fetcher, no-compact filter and planner on a simulated bucket until fixpoint",
+    "design_ref": "DESIGN.md §6 C30",
+    "quick": {"runs": 2500, "seconds": 60},
+    "thorough": {"runs": 120000, "seconds": 900},
+    "rule": "one evaluation = (1 in 4) one simulated compactor life as in C29 whose every plan (input group, plan, no-compact set) is judged, or (3 in 4) one "
+            "generated history: 2-14 block metas (aligned windows of the smallest range with gaps and already-compacted blocks, or misaligned/overlapping "
+            "intervals; range lists {2,8},{2,4,8},{1,2,8,48},{2,6,18}; negative times; no-compact marks; tombstone stats) fetched through the real fetcher + "
+            "GatherNoCompactionMarkFilter and planned with the real planner, the plan applied (sources replaced by one merged block) and re-planned until "
+            "no plan is returned. Clauses: >=2 blocks or a single block with >5% tombstones; no no-compact block; for aligned non-overlapping inputs the "
+            "newest block is excluded and the plan fits one aligned window of a configured range; fixpoint within 3n+4 steps; at the fixpoint no overlap "
+            "(among not-excluded blocks) and, for aligned inputs, no block longer than the largest range. distinct = distinct event-log hash.",
+    "components": {"real": ["compact planner chain (tsdbBasedPlanner, largeTotalIndexSizeFilter, vertical-compaction filter in lifecycle runs)",
+                            "compact.GatherNoCompactionMarkFilter, block fetcher", "in lifecycle runs: everything listed for C29"],
+                   "stub": ["object storage (simbucket)", "in history runs compaction itself is replaced by its effect on metadata (merged meta.json)"]},
+    "assumptions": ["'aligned' inputs are aligned by construction of the generator", "applying a plan yields one block spanning the planned blocks with tombstones cleared"],
+    "text": "Seeded sampling of block layouts and plan/apply histories; every plan of every step is judged.",
+    "note": "In history runs the TSDB compactor is not executed; lifecycle runs execute it.",
+}
